@@ -3,14 +3,14 @@
 From RW Require Import Base.Bytes Base.BytesFacts Fmt.Codec Fmt.CodecFacts Fmt.Frame Wal.Model Wal.Spec Wal.Hist Wal.FaultHist
   Wal.CrashInv Wal.CrashFacts0 Wal.CrashFacts1 Wal.CrashFacts2 Wal.CrashFacts3 Wal.CrashFacts4 Wal.CrashFacts5
   Wal.CrashFacts6 Wal.CrashGlue Wal.CrashCalls1 Wal.CrashCalls2 Wal.CrashCalls3 Wal.CrashCalls4 Wal.CrashCalls6
-  Wal.CrashCalls7 Wal.CrashCalls8 Wal.CrashCalls9 Wal.FaultSim Wal.FaultSim2 Wal.FaultInv Wal.FaultFacts2 Wal.FaultFacts3
+  Wal.CrashCalls7 Wal.CrashCalls8 Wal.CrashCalls9 Wal.FaultSim Wal.FaultSim2 Wal.FaultInv Wal.FaultFacts2 Wal.FaultFacts3 Wal.FaultNames
   Gen.Constants.
 From Coq Require Import ZifyN ZifyNat ZifyBool.
 Open Scope N_scope.
 
 (* the shadow environment: same history and metrics, normalised disk, no fault *)
 Definition shenv (e : env) : env :=
-  {| e_acts := e_acts e; e_disk := sh (e_disk e); e_fault := None; e_m := e_m e |}.
+  {| e_acts := e_acts e; e_disk := sh (e_disk e); e_fault := None; e_fx := e_fx e; e_m := e_m e |}.
 
 Lemma RD_mono c nb nb' d alts alts' defer defer' :
   nb <= nb' -> incl alts alts' -> incl defer defer' -> RD c nb d alts defer -> RD c nb' d alts' defer'.
@@ -25,47 +25,115 @@ Qed.
 Lemma Live_mono c nb nb' w d defer defer' : nb <= nb' -> incl defer defer' -> Live c nb w d defer -> Live c nb' w d defer'.
 Proof.
   intros Hn Hi (HL & Hst). split; [eapply LInv_mono; eauto|].
-  destruct Hst as [H|(t & f & p & A & B & C & D & E)]; [left; exact H|right].
-  exists t, f, p. split; [exact A|]. split; [exact B|]. split; [exact C|]. split; [exact D|]. eapply stale_batch_mono; eauto.
+  intros n f p Hl Hp. destruct (Hst n f p Hl Hp) as [(t & A & B & C)|K]; [left|right; exact K].
+  exists t. split; [exact A|]. split; [exact B|]. eapply stale_batch_mono; eauto.
 Qed.
+
+(* ---- the metadata and the file ids of a live state ---- *)
+Lemma live_meta c nb w d : LInv c nb w (sh d) -> dk_meta d = Some (persistent w).
+Proof. intros (_ & _ & _ & _ & H & _). exact H. Qed.
+
+Lemma live_ids c nb w d n : LInv c nb w (sh d) -> lookup n (dk_files d) <> None -> snd n < st_next_id w.
+Proof.
+  intros HL Hl. pose proof HL as (_ & _ & (ND & HD) & _ & Hm & _). rewrite Hm in HD. destruct HD as (_ & Hids & _).
+  destruct (lookup n (dk_files d)) as [f|] eqn:E; [|congruence]. apply (Hids n (sh_file f)).
+  unfold sh. rewrite lookup_map_files, E. reflexivity.
+Qed.
+
+(* a file the metadata does not list stays unlisted *)
+Lemma unlisted_keep c nb w d d' n : LInv c nb w (sh d) -> lookup n (dk_files d) <> None -> unlisted d n ->
+  meta_sub w d d' -> unlisted d' n.
+Proof.
+  intros HL Hl Hu [Hm|(ps & Hm & Hf)] ps' s Hm' Hs.
+  - rewrite Hm in Hm'. apply (Hu ps' s Hm' Hs).
+  - rewrite Hm in Hm'. inversion Hm'; subst ps'.
+    apply (fresh_sub_keep w (ps_segs ps) n Hf (live_ids c nb w d n HL Hl)); [|exact Hs].
+    intros s0 Hs0. apply (Hu (persistent w) s0 (live_meta c nb w d HL) Hs0).
+Qed.
+
+Lemma unlisted_meta d d' n : dk_meta d' = dk_meta d -> unlisted d n -> unlisted d' n.
+Proof. intros Hm Hu ps s Hm' Hs. rewrite Hm in Hm'. apply (Hu ps s Hm' Hs). Qed.
 
 (* ---- a live state and its shadow ---- *)
 Lemma live_shadow c nb w e defer : Live c nb w (e_disk e) defer ->
-  exists o, R o e (shenv e) /\ stale_tail o w (e_disk e) /\ stale_ok o (e_disk e) /\
-            (o = None -> no_pend (e_disk e)) /\
-            (forall tw, st_tail w = Some tw -> o = Some (ws_name tw) -> wguard (e_disk e) (ws_name tw) (ws_off tw)) /\
-            (forall n, o = Some n -> exists t f p, n = name_of t /\ tail_info (st_segs w) = Some t /\
-               lookup n (dk_files (e_disk e)) = Some f /\ df_pend f = Some p /\ stale_batch c t f p defer).
+  let X := stale_names (e_disk e) in
+  R X e (shenv e) /\
+  (forall tw, st_tail w = Some tw -> In (ws_name tw) X -> wguard (e_disk e) (ws_name tw) (ws_off tw)) /\
+  (forall n, In n X -> lookup n (dk_files (e_disk e)) <> None) /\
+  (forall n, In n X -> (exists t, tail_info (st_segs w) = Some t /\ n = name_of t) \/ unlisted (e_disk e) n).
 Proof.
-  intros (HL & Hst). pose proof (LInv_NoDup_sh _ _ _ _ HL) as ND.
-  destruct Hst as [Hn|(t & f & p & Ht & Hf & Hp & Hso & Hsb)].
-  - exists None. split; [split; [apply drel_sh; [exact ND|apply stale_ok_nopend; exact Hn]|reflexivity]|].
-    split; [intros n K; discriminate|]. split; [apply stale_ok_nopend; exact Hn|]. split; [auto|].
-    split; [intros tw _ K; discriminate|intros n K; discriminate].
-  - destruct (LInv_view _ _ _ _ HL) as (S & t' & f0 & tw & V).
-    assert (t' = t). { rewrite (lv_segs _ _ _ _ _ _ _ _ V), tail_info_app in Ht. inversion Ht. reflexivity. } subst t'.
+  intros (HL & Hst) X. pose proof (LInv_NoDup_sh _ _ _ _ HL) as ND.
+  split; [split; [apply drel_sh; [exact ND|apply stale_names_ok]|reflexivity]|].
+  split.
+  { intros tw Htw _ f p Hl Hp. destruct (LInv_view _ _ _ _ HL) as (S & t & f0 & tw0 & V).
+    rewrite (lv_tail _ _ _ _ _ _ _ _ V) in Htw. inversion Htw; subst tw0.
+    pose proof (lv_tw _ _ _ _ _ _ _ _ V) as (Tn & _ & _ & _ & _ & To & _). rewrite Tn in Hl.
     assert (Hf0 : f0 = sh_file f).
-    { pose proof (lv_file _ _ _ _ _ _ _ _ V) as K. unfold sh in K. rewrite lookup_map_files, Hf in K. cbn in K. inversion K. reflexivity. }
-    pose proof (lv_tw _ _ _ _ _ _ _ _ V) as (Tn & _ & _ & _ & _ & To & _).
-    assert (Hgd : wguard (e_disk e) (name_of t) (ws_off tw)).
-    { intros f' p' Hl Hp'. rewrite Hf in Hl. inversion Hl; subst f'. rewrite Hp in Hp'. inversion Hp'; subst p'.
-      rewrite To, Hf0. cbn. apply Hsb. }
-    exists (Some (name_of t)). split; [split; [apply drel_sh; assumption|reflexivity]|].
-    split.
-    { intros n K. inversion K; subst n. split; [rewrite Hf; discriminate|].
-      exists t, tw. split; [exact Ht|]. split; [apply (lv_tail _ _ _ _ _ _ _ _ V)|]. split; [exact Tn|]. split; [reflexivity|exact Hgd]. }
-    split; [exact Hso|]. split; [discriminate|]. split.
-    { intros tw' Ht' K. rewrite (lv_tail _ _ _ _ _ _ _ _ V) in Ht'. inversion Ht'; subst tw'. rewrite Tn. exact Hgd. }
-    intros n K. inversion K; subst n. exists t, f, p. auto.
+    { pose proof (lv_file _ _ _ _ _ _ _ _ V) as K. unfold sh in K. rewrite lookup_map_files, Hl in K. cbn in K. inversion K. reflexivity. }
+    destruct (Hst _ f p Hl Hp) as [(t' & Ht' & _ & Hsb)|Hu].
+    - rewrite To, Hf0. cbn. apply Hsb.
+    - exfalso. apply (Hu (persistent w) t (live_meta c nb w _ HL)); [|reflexivity].
+      cbn [persistent ps_segs]. rewrite (lv_segs _ _ _ _ _ _ _ _ V). apply in_or_app. right. left. reflexivity. }
+  split.
+  { intros n Hin. destruct (stale_names_in _ n ND Hin) as (f & p & Hl & _). rewrite Hl. discriminate. }
+  intros n Hin. destruct (stale_names_in _ n ND Hin) as (f & p & Hl & Hp).
+  destruct (Hst n f p Hl Hp) as [(t & A & B & _)|K]; [left; exists t; auto|right; exact K].
 Qed.
 
-Lemma drel_stale_ok o d dc : drel o d dc -> no_pend dc -> stale_ok o d.
+Lemma not_mem_name n X : mem_name n X = false -> ~ In n X.
+Proof. intros E K. apply mem_name_spec in K. congruence. Qed.
+
+Lemma drel_stale_ok X d dc : drel X d dc -> no_pend dc -> stale_ok X d.
 Proof.
   intros (H1 & _ & _ & _ & _ & H6) Hn n f Hl Hp. destruct (lrel_lookup_some n _ _ f H1 Hl) as (g & Hg & _).
-  destruct o as [m|].
-  - destruct (fname_eqb m n) eqn:E; [apply fname_eqb_eq in E; congruence|]. exfalso. apply Hp.
-    rewrite (H6 n f g Hl Hg). { apply (Hn n g Hg). } intros K. inversion K; subst. rewrite fname_eqb_refl in E. discriminate.
-  - exfalso. apply Hp. rewrite (H6 n f g Hl Hg ltac:(discriminate)). apply (Hn n g Hg).
+  destruct (mem_name n X) eqn:E; [apply mem_name_spec; exact E|]. exfalso. apply Hp.
+  rewrite (H6 n f g Hl Hg (not_mem_name _ _ E)). apply (Hn n g Hg).
+Qed.
+
+Lemma sp_of_sh_clean c nb w dc : LInv c nb w dc -> sp_of (sh dc) = sp_of dc.
+Proof.
+  intros (_ & _ & HD & HN & _). rewrite <- (dirfix_nopend dc (DIs_NoDup _ _ _ HD) HN). apply sp_of_dirfix.
+Qed.
+
+(* ---- putting back files whose deletion failed ---- *)
+Lemma sh_unpend d : sh d = dirfix (unpend d).
+Proof. change (unpend d) with (map_files unpend_file d). unfold sh, dirfix. rewrite map_files_comp. reflexivity. Qed.
+
+Lemma DIs_sh c nb d : DIs c nb d -> DIs c nb (sh d).
+Proof. intros H. rewrite sh_unpend. apply DIs_dirfix, DIs_unpend. exact H. Qed.
+
+Lemma sh_delete d n : sh (apply_act d (ADelete n)) = apply_act (sh d) (ADelete n).
+Proof.
+  unfold sh, map_files. cbn [apply_act dk_files dk_meta dk_stable dk_inited]. f_equal.
+  induction (dk_files d) as [|[m g] r IH]; cbn [remove map fst snd]; [reflexivity|].
+  destruct (fname_eqb n m); [reflexivity|]. cbn [map fst snd]. rewrite IH. reflexivity.
+Qed.
+
+Lemma sh_del_disk ns : forall d, sh (del_disk ns d) = del_disk ns (sh d).
+Proof.
+  unfold del_disk. induction ns as [|n ns IH]; intros d; cbn [fold_left]; [reflexivity|]. rewrite IH, sh_delete. reflexivity.
+Qed.
+
+Lemma sp_of_del c nb w d ns : LInv c nb w (del_disk ns d) -> NoDup (map fst (dk_files d)) -> sp_of (del_disk ns d) = sp_of d.
+Proof.
+  intros HL ND. destruct (del_disk_meta ns d) as (M1 & M2). unfold sp_of. rewrite M2. f_equal.
+  apply dread_ext; [exact M1|]. intros ps s Hm Hs. unfold file_ents. rewrite (del_disk_lookup ns d _ ND).
+  destruct (mem_name (name_of s) ns) eqn:E; [|reflexivity]. exfalso.
+  pose proof HL as (_ & _ & _ & _ & Hmeta & _). rewrite M1, Hm in Hmeta. inversion Hmeta; subst ps.
+  apply (LInv_listed_files c nb w _ s HL Hs). rewrite (del_disk_lookup ns d _ ND), E. reflexivity.
+Qed.
+
+Lemma undelete_sh c nb w dcp ns : LInv c nb w (del_disk ns dcp) -> DIs c nb dcp ->
+  LInv c nb w (sh dcp) /\ sp_of (sh dcp) = sp_of (del_disk ns dcp) /\
+  (forall n, In n ns -> forall s, In s (st_segs w) -> name_of s <> n).
+Proof.
+  intros HL HD. pose proof (DIs_NoDup _ _ _ HD) as ND.
+  assert (HL1 : LInv c nb w (del_disk ns (sh dcp))) by (rewrite <- sh_del_disk; apply LInv_sh; exact HL).
+  assert (NDs : NoDup (map fst (dk_files (sh dcp)))) by (unfold sh; rewrite map_files_keys; exact ND).
+  split; [apply (LInv_undelete c nb w (sh dcp) ns HL1 (DIs_sh c nb dcp HD) (no_pend_sh dcp))|]. split.
+  - rewrite <- (sp_of_del c nb w (sh dcp) ns HL1 NDs), <- sh_del_disk. apply (sp_of_sh_clean c nb w _ HL).
+  - intros n Hin s Hs Hn. apply (LInv_listed_files c nb w _ s HL Hs). rewrite Hn, (del_disk_lookup ns dcp n ND).
+    replace (mem_name n ns) with true; [reflexivity|]. symmetry. apply mem_name_spec. exact Hin.
 Qed.
 
 (* ---- sizes ---- *)
@@ -109,21 +177,18 @@ Proof.
 Qed.
 
 (* ---- a failed fsync leaves a stale batch behind a clean state ---- *)
-Lemma sp_of_sh_clean c nb w dc : LInv c nb w dc -> sp_of (sh dc) = sp_of dc.
-Proof.
-  intros (_ & _ & HD & HN & _). rewrite <- (dirfix_nopend dc (DIs_NoDup _ _ _ HD) HN). apply sp_of_dirfix.
-Qed.
 
-Lemma stale_after_write c nb nb' w dc d' S t f0 tw defer' a len b :
+Lemma stale_after_write c nb nb' w dc d' X S t f0 tw defer' a len b :
   lview c nb w dc S t f0 tw -> df_seal f0 = 0 -> nb <= nb' ->
   a = AWrite (name_of t) (df_end f0) len b -> df_end f0 < pb_end b ->
-  DIs c nb' (apply_act dc a) -> drel None d' (apply_act dc a) ->
+  DIs c nb' (apply_act dc a) -> drel X d' (apply_act dc a) -> ~ In (name_of t) X ->
+  (forall n, In n X -> unlisted d' n) ->
   (pb_ents b <> [] -> sop_ok (OStore (pb_ents b)) /\ In (OStore (pb_ents b)) defer' /\
      exists l0 r, pb_ents b = l0 :: r /\ l_index l0 = si_base t + llen (df_ents f0) /\
                   consecutive (l_index l0) (pb_ents b) = true) ->
   Live c nb' w d' defer' /\ sp_of (sh d') = sp_of dc.
 Proof.
-  intros V Hse Hnb -> Hlt HD Hrel Hls.
+  intros V Hse Hnb -> Hlt HD Hrel HtX Hgarb Hls.
   set (n := name_of t) in *. set (dm := apply_act dc (AWrite n (df_end f0) len b)) in *.
   pose proof (LInv_of_view V) as HLc.
   assert (Hsh : sh d' = sh dc) by (rewrite (drel_sh_eq _ _ _ Hrel); unfold dm; apply sh_write).
@@ -133,24 +198,24 @@ Proof.
   { apply (apply_write dc n (df_end f0) len b f0 Hf0 Hp0). }
   assert (Hldm : lookup n (dk_files dm) = Some (with_pend f0 b)) by (rewrite Edm; cbn [dk_files]; apply lookup_update_eq).
   pose proof Hrel as (H1 & _ & _ & _ & _ & H6).
-  destruct (lrel_lookup_some_r n _ _ _ H1 Hldm) as (f' & Hf' & (F1 & F2 & F3 & F4 & _)).
-  pose proof (H6 n f' _ Hf' Hldm ltac:(discriminate)) as F5. cbn [with_pend df_ents df_end df_seal df_pend] in *.
+  destruct (lrel_lookup_some_r n _ _ _ H1 Hldm) as (f' & Hf' & (F1 & F2 & F3 & _)).
+  pose proof (H6 n f' _ Hf' Hldm HtX) as F5. cbn [with_pend df_ents df_end df_seal df_pend] in *.
   rewrite Hsh. split; [|apply (sp_of_sh_clean c nb w dc HLc)].
   split; [rewrite Hsh; eapply LInv_mono; [exact Hnb|apply LInv_sh; exact HLc]|].
-  right. exists t, f', b. split; [rewrite (lv_segs _ _ _ _ _ _ _ _ V); apply tail_info_app|].
-  split; [exact Hf'|]. split; [exact F5|]. split.
-  { (* pending only in the tail file *)
-    intros m g Hl Hp. destruct (fname_eqb m n) eqn:E; [apply fname_eqb_eq in E; rewrite E; reflexivity|]. exfalso. apply Hp.
-    destruct (lrel_lookup_some m _ _ _ H1 Hl) as (gm & Hgm & _). rewrite (H6 m g gm Hl Hgm ltac:(discriminate)).
+  intros m g q Hl Hq. destruct (fname_eqb m n) eqn:E.
+  - apply fname_eqb_eq in E. subst m. left. exists t. split; [rewrite (lv_segs _ _ _ _ _ _ _ _ V); apply tail_info_app|]. split; [reflexivity|].
+    rewrite Hf' in Hl. inversion Hl; subst g. rewrite F5 in Hq. inversion Hq; subst q.
+    pose proof (lv_meta _ _ _ _ _ _ _ _ V) as Hm.
+    assert (Hmdm : dk_meta dm = Some {| ps_next_id := st_next_id w; ps_segs := S ++ [t] |}) by (rewrite Edm; exact Hm).
+    destruct (DIs_parts c nb' dm _ S t HD Hmdm eq_refl) as (_ & _ & _ & _ & _ & _ & Htok).
+    destruct Htok as (_ & Htok). fold n in Htok. rewrite Hldm in Htok. destruct Htok as (_ & Z2 & _ & _ & _ & Z6).
+    unfold cur_ents, cur_end, cur_seal in Z2, Z6. cbn [with_pend df_pend df_ents] in Z2, Z6.
+    split; [congruence|]. split; [rewrite F2; lia|]. rewrite F1. split; [exact Z2|]. split; [exact Z6|].
+    exact Hls.
+  - right. apply Hgarb. destruct (mem_name m X) eqn:Ex; [apply mem_name_spec; exact Ex|]. exfalso.
+    destruct (lrel_lookup_some m _ _ _ H1 Hl) as (gm & Hgm & _). rewrite (H6 m g gm Hl Hgm (not_mem_name _ _ Ex)) in Hq.
     apply fname_eqb_neq in E. rewrite Edm in Hgm. cbn [dk_files] in Hgm. rewrite lookup_update_neq in Hgm by exact E.
-    apply (lv_nopend _ _ _ _ _ _ _ _ V m gm Hgm). }
-  pose proof (lv_meta _ _ _ _ _ _ _ _ V) as Hm.
-  assert (Hmdm : dk_meta dm = Some {| ps_next_id := st_next_id w; ps_segs := S ++ [t] |}) by (rewrite Edm; exact Hm).
-  destruct (DIs_parts c nb' dm _ S t HD Hmdm eq_refl) as (_ & _ & _ & _ & _ & _ & Htok).
-  destruct Htok as (_ & Htok). fold n in Htok. rewrite Hldm in Htok. destruct Htok as (_ & Z2 & _ & _ & _ & Z6).
-  unfold cur_ents, cur_end, cur_seal in Z2, Z6. cbn [with_pend df_pend df_ents] in Z2, Z6.
-  split; [congruence|]. split; [rewrite F2; lia|]. rewrite F1. split; [exact Z2|]. split; [exact Z6|].
-  exact Hls.
+    rewrite (lv_nopend _ _ _ _ _ _ _ _ V m gm Hgm) in Hq. discriminate.
 Qed.
 
 Lemma lv_sizes {c nb w d S t f tw} (V : lview c nb w d S t f tw) :
@@ -189,14 +254,10 @@ Proof.
   apply (force_end_gt (c_seg_size c) (df_end f) (llen (df_ents f)) (if ws_hdr tw then 32 else 0) Hc4 Z1 Z3 Hn1 Hh).
 Qed.
 
-(* ---- the recovery view of a disk related to a clean one, when the only file
-        that may differ (a stale batch) is not listed by the metadata ---- *)
-Lemma ad_lookup n d : lookup n (dk_files (ad d)) = option_map (fun f => dirfix_file (adopt_file f)) (lookup n (dk_files d)).
-Proof. unfold ad, dirfix. rewrite adopt_is_map, map_files_comp. apply lookup_map_files. Qed.
-
-Lemma RD_stale_unlisted c nb d' dm o alts defer :
-  DIs c nb dm -> no_pend dm -> drel o d' dm ->
-  (forall n ps s, o = Some n -> dk_meta dm = Some ps -> In s (ps_segs ps) -> name_of s <> n) ->
+(* ---- the recovery view of a disk related to a clean one, when the files that may
+        differ (stale batches) are not listed by the metadata ---- *)
+Lemma RD_rel c nb d' dm X alts defer :
+  DIs c nb dm -> no_pend dm -> drel X d' dm -> (forall n, In n X -> unlisted dm n) ->
   In (sp_of dm) (candidates alts defer) -> RD c nb d' alts defer.
 Proof.
   intros HD HN Hrel Hunl Hin. pose proof Hrel as (H1 & H2 & H3 & H4 & H5 & H6).
@@ -205,32 +266,155 @@ Proof.
   { intros ps s Hm Hs. rewrite ad_lookup. unfold dirfix. rewrite lookup_map_files.
     pose proof (lrel_lookup (name_of s) _ _ H1) as K.
     destruct (lookup (name_of s) (dk_files d')) as [g|] eqn:Eg, (lookup (name_of s) (dk_files dm)) as [gm|] eqn:Egm; [|destruct K|destruct K|reflexivity].
-    destruct K as (K1 & K2 & K3 & K4 & _). cbn [option_map]. f_equal.
+    destruct K as (K1 & K2 & K3 & _). cbn [option_map]. f_equal.
     assert (Hp : df_pend g = df_pend gm).
-    { apply (H6 _ g gm Eg Egm). destruct o as [n|]; [|discriminate]. intros X. inversion X; subst. apply (Hunl _ ps s eq_refl Hm Hs). reflexivity. }
-    pose proof (HN _ gm Egm) as Hpm. rewrite Hpm in Hp. unfold adopt_file. rewrite Hp. unfold dirfix_file. cbn. rewrite K1, K2, K3, K4, Hp, Hpm. reflexivity. }
-  assert (HDa : DIs c nb (ad d')).
-  { apply (DIs_frame c nb (dirfix dm) (ad d') (DIs_dirfix _ _ _ HD)).
-    - exact H2.
-    - rewrite ad_keys. apply (drel_NoDup _ _ _ Hrel).
-    - intros n f Hl. rewrite ad_lookup in Hl. unfold dirfix. rewrite lookup_map_files.
-      destruct (lookup n (dk_files d')) as [g|] eqn:Eg; [|discriminate].
-      destruct (lrel_lookup_some n _ _ g H1 Eg) as (gm & Egm & _). rewrite Egm. eexists. reflexivity.
-    - intros ps s Hm Hs. apply (Hlk ps s Hm Hs). }
-  split; [exact HDa|].
-  replace (sp_of (ad d')) with (sp_of dm); [exact Hin|].
-  rewrite <- (sp_of_dirfix dm). unfold sp_of. f_equal; [|symmetry; exact H3].
-  symmetry. apply dread_ext; [exact H2|]. intros ps s Hm Hs. unfold file_ents. rewrite (Hlk ps s Hm Hs). reflexivity.
+    { apply (H6 _ g gm Eg Egm). intros Hx. apply (Hunl _ Hx ps s Hm Hs). reflexivity. }
+    pose proof (HN _ gm Egm) as Hpm. rewrite Hpm in Hp. unfold adopt_file. rewrite Hp. unfold dirfix_file. rewrite K1, K2, K3, Hp, Hpm. reflexivity. }
+  eapply (RD_frame c nb d' (dirfix dm)).
+  - apply DIs_dirfix. exact HD.
+  - symmetry. exact H2.
+  - symmetry. exact H3.
+  - apply (drel_NoDup _ _ _ Hrel).
+  - intros n Hl. unfold dirfix. rewrite lookup_map_files. destruct (lookup n (dk_files d')) as [g|] eqn:Eg; [|congruence].
+    destruct (lrel_lookup_some n _ _ g H1 Eg) as (gm & Egm & _). rewrite Egm. discriminate.
+  - intros ps s Hm Hs. apply (Hlk ps s Hm Hs).
+  - rewrite sp_of_dirfix. exact Hin.
 Qed.
 
-(* the names listed by a live state all have files *)
-Lemma unlisted_of_final c nb w0 dfin dm n ps :
-  LInv c nb w0 dfin -> dk_meta dfin = Some ps -> dk_meta dm = Some ps -> lookup n (dk_files dfin) = None ->
-  forall ps' s, dk_meta dm = Some ps' -> In s (ps_segs ps') -> name_of s <> n.
+(* ---- readers after a failure: the in-memory state agrees with a clean disk ---- *)
+Lemma RV_intro2 c nb w wc dc d nom :
+  LInv c nb wc dc -> sp_of dc = nom -> st_segs w = st_segs wc -> st_tail w = st_tail wc ->
+  (forall n, lookup n (dk_files dc) <> None -> lookup n (dk_files (sh d)) = lookup n (dk_files dc)) ->
+  dk_stable dc = dk_stable d -> NoDup (map fst (dk_files d)) ->
+  (forall n f p, lookup n (dk_files d) = Some f -> df_pend f = Some p ->
+     (exists t, tail_info (st_segs wc) = Some t /\ n = name_of t) \/ (forall s, In s (st_segs wc) -> name_of s <> n)) ->
+  RV c nb w d nom.
 Proof.
-  intros HL Hmf Hmd Hl ps' s Hm' Hs Hn. rewrite Hmd in Hm'. inversion Hm'; subst ps'.
-  pose proof HL as (_ & _ & _ & _ & Hmeta & _). rewrite Hmf in Hmeta. inversion Hmeta; subst ps.
-  apply (LInv_listed_files c nb w0 dfin s HL Hs). rewrite Hn. exact Hl.
+  intros HL Hsp Hs Ht Hlk Hstb ND Hst.
+  exists wc, dc. split; [exact HL|]. split; [exact Hsp|]. split; [exact Hs|]. split; [exact Ht|].
+  split; [exact Hlk|]. split; [exact Hstb|]. split; [exact ND|].
+  intros n f s Hl Hp Hin Hn. destruct (df_pend f) as [p|] eqn:Ep; [|congruence].
+  destruct (LInv_view _ _ _ _ HL) as (S & t & f0 & tw & V). rewrite Hs, (lv_segs _ _ _ _ _ _ _ _ V) in Hin |- *.
+  rewrite tail_info_app. apply in_app_or in Hin. destruct Hin as [Hin|[<-|[]]]; [exfalso|reflexivity].
+  destruct (Hst n f p Hl Ep) as [(t' & Ht' & ->)|Hu].
+  - rewrite (lv_segs _ _ _ _ _ _ _ _ V), tail_info_app in Ht'. inversion Ht'; subst t'.
+    apply (DIs_sealed_neq c nb dc _ S t s (lv_dis _ _ _ _ _ _ _ _ V) (lv_meta _ _ _ _ _ _ _ _ V) eq_refl Hin). exact Hn.
+  - apply (Hu s); [rewrite (lv_segs _ _ _ _ _ _ _ _ V); apply in_or_app; left; exact Hin|exact Hn].
+Qed.
+
+(* the metadata commit went through, the creation of the new tail file failed *)
+Lemma fail_after_commit c nb nb' wm wc dc d' X nom alts defer ps ec ec' :
+  nb <= nb' -> LInv c nb wc dc -> e_disk ec = dc -> sp_of dc = nom ->
+  st_segs wm = st_segs wc -> st_tail wm = st_tail wc -> st_failed wm = true -> st_rotate wm = None -> st_closed wm = false ->
+  post_commit X ec ec' d' ps ->
+  (forall dm, pfx ec ec' dm -> DIs c nb' dm /\ In (sp_of dm) (candidates alts defer)) ->
+  (forall n, In n X -> (exists t, tail_info (st_segs wc) = Some t /\ n = name_of t) \/
+                       (forall s, In s (st_segs wc) -> name_of s <> n)) ->
+  (forall n s, In n X -> In s (ps_segs ps) -> name_of s <> n) ->
+  Mode c nb' wm d' nom defer /\ RD c nb' d' alts defer.
+Proof.
+  intros Hnb HL Hec Hsp Hs Ht Hf Hr Hcl (dm & Hrel & Hpfx & Hmeta & Hkeep & Hstb & Hnew) Hfin HX Hunl.
+  subst dc. pose proof HL as (_ & _ & HDc & HNc & _).
+  assert (HNdm : no_pend dm).
+  { intros n f Hl. destruct (lookup n (dk_files (e_disk ec))) as [g|] eqn:E0; [|apply (Hnew n f Hl E0)].
+    rewrite (Hkeep n) in Hl by congruence. apply (HNc n f Hl). }
+  destruct (Hfin dm Hpfx) as (HDm & Hcand).
+  split.
+  - right. split; [exact Hcl|]. right. right. split; [exact Hf|]. split; [exact Hr|].
+    apply (RV_intro2 c nb' wm wc (sh (e_disk ec)) d' nom).
+    + eapply LInv_mono; [exact Hnb|apply LInv_sh; exact HL].
+    + rewrite (sp_of_sh_clean c nb wc _ HL). exact Hsp.
+    + exact Hs.
+    + exact Ht.
+    + intros n Hl. rewrite (drel_sh_eq _ _ _ Hrel). unfold sh in Hl |- *. rewrite lookup_map_files in Hl. rewrite !lookup_map_files.
+      destruct (lookup n (dk_files (e_disk ec))) as [g|] eqn:E0; [|exfalso; apply Hl; reflexivity].
+      rewrite (Hkeep n) by congruence. rewrite E0. reflexivity.
+    + destruct Hrel as (_ & _ & K & _). rewrite K. symmetry. exact Hstb.
+    + apply (drel_NoDup _ _ _ Hrel).
+    + intros n f p Hl Hp. apply HX. apply (drel_stale_ok _ _ _ Hrel HNdm n f Hl). congruence.
+  - apply (RD_rel c nb' d' dm X alts defer HDm HNdm Hrel); [|exact Hcand].
+    intros n Hx ps' s Hm' Hs'. rewrite Hmeta in Hm'. inversion Hm'; subst ps'. apply (Hunl n s Hx Hs').
+Qed.
+
+(* ---- the state a run leaves whose trailing deletions may all have failed ---- *)
+Lemma Rd_post c nb A w0 e' ec ec' X ns (P : fname -> dfile -> pbatch -> Prop) :
+  ext (DP c nb A) ec ec' -> LInv c nb w0 (e_disk ec') -> Rd X ns ec e' ec' ->
+  (forall n f p, In n X -> ~ In n ns -> lookup n (dk_files (e_disk e')) = Some f -> df_pend f = Some p ->
+      P n f p \/ unlisted (e_disk e') n) ->
+  LInv c nb w0 (sh (e_disk e')) /\
+  (forall n f p, lookup n (dk_files (e_disk e')) = Some f -> df_pend f = Some p -> P n f p \/ unlisted (e_disk e') n) /\
+  sp_of (sh (e_disk e')) = sp_of (e_disk ec').
+Proof.
+  intros Hext HL [HR|(ecp & HR & Eec & Ha & _)] Hcls.
+  - destruct HR as (Hrel & _). pose proof HL as (_ & _ & _ & HN & _).
+    split; [|split].
+    + rewrite (drel_sh_eq _ _ _ Hrel). apply LInv_sh; exact HL.
+    + intros n f p Hl Hp. assert (Hin : In n (rems ns X)) by (apply (drel_stale_ok _ _ _ Hrel HN n f Hl); congruence).
+      apply (Hcls n f p (rems_incl ns X n Hin) (rems_in ns X n Hin) Hl Hp).
+    + rewrite (drel_sh_eq _ _ _ Hrel). apply (sp_of_sh_clean c nb w0 _ HL).
+  - destruct HR as (Hrel & Hfp).
+    assert (Hd' : e_disk ec' = del_disk ns (e_disk ecp)) by (rewrite Eec; apply delete_files_disk; exact Hfp).
+    assert (Hp : pfx ec ec' (e_disk ecp)).
+    { eapply pfx_more; [apply pfx_end; exact Ha|]. rewrite Eec. apply sh_delete_files. exact Hfp. }
+    destruct (ext_pfx _ _ _ _ Hext Hp) as (HDp & _).
+    rewrite Hd' in HL. destruct (undelete_sh c nb w0 (e_disk ecp) ns HL HDp) as (HL2 & Hsp2 & Hunl).
+    pose proof HL as (_ & _ & _ & HN & Hmeta & _). pose proof (DIs_NoDup _ _ _ HDp) as ND.
+    split; [|split].
+    + rewrite (drel_sh_eq _ _ _ Hrel). exact HL2.
+    + intros n f p Hl Hp'. destruct (mem_name n ns) eqn:En.
+      * right. apply mem_name_spec in En. intros ps s Hm Hs.
+        assert (Eps : ps = persistent w0).
+        { destruct Hrel as (_ & M & _). rewrite M in Hm. destruct (del_disk_meta ns (e_disk ecp)) as (M1 & _).
+          rewrite <- M1, Hmeta in Hm. inversion Hm; reflexivity. }
+        subst ps. apply (Hunl n En s Hs).
+      * assert (Hin : In n X).
+        { destruct (mem_name n X) eqn:Ex; [apply mem_name_spec; exact Ex|]. exfalso.
+          destruct Hrel as (H1 & _ & _ & _ & _ & H6). destruct (lrel_lookup_some n _ _ f H1 Hl) as (g & Hg & _).
+          assert (Hpg : df_pend g = None). { apply (HN n g). rewrite (del_disk_lookup ns _ n ND), En. exact Hg. }
+          rewrite (H6 n f g Hl Hg (not_mem_name _ _ Ex)) in Hp'. congruence. }
+        apply (Hcls n f p Hin (not_mem_name _ _ En) Hl Hp').
+    + rewrite (drel_sh_eq _ _ _ Hrel), Hd'. exact Hsp2.
+Qed.
+
+Lemma Rd_live c nb A w0 e' ec ec' X ns defer' :
+  ext (DP c nb A) ec ec' -> LInv c nb w0 (e_disk ec') -> Rd X ns ec e' ec' ->
+  (forall n f p, In n X -> ~ In n ns -> lookup n (dk_files (e_disk e')) = Some f -> df_pend f = Some p ->
+      (exists t, tail_info (st_segs w0) = Some t /\ n = name_of t /\ stale_batch c t f p defer') \/ unlisted (e_disk e') n) ->
+  Live c nb w0 (e_disk e') defer' /\ sp_of (sh (e_disk e')) = sp_of (e_disk ec').
+Proof.
+  intros Hext HL HRd Hcls.
+  destruct (Rd_post c nb A w0 e' ec ec' X ns (fun n f p => exists t, tail_info (st_segs w0) = Some t /\ n = name_of t /\ stale_batch c t f p defer') Hext HL HRd Hcls)
+    as (A1 & A2 & A3).
+  split; [split; [exact A1|exact A2]|exact A3].
+Qed.
+
+(* ---- fault-free runs keep the disk free of pending batches ---- *)
+Lemma np_seg_create si ec sw ec' : e_fault ec = None -> no_pend (e_disk ec) -> seg_create si ec = (sw, ec') -> no_pend (e_disk ec').
+Proof.
+  intros Hf Hn. unfold seg_create. destruct (si_base si =? 0); [intros E; inversion E; subst; exact Hn|].
+  destruct (lookup _ _); rewrite (io_ok _ _ Hf); intros E; inversion E; subst; cbn [io_env e_disk]; [exact Hn|].
+  apply no_pend_create. exact Hn.
+Qed.
+
+Lemma np_mutate_gen_defer w t ec r w' ec' dl : e_fault ec = None -> no_pend (e_disk ec) ->
+  mutate_gen true w t ec = (r, w', ec', dl) -> no_pend (e_disk ec').
+Proof.
+  intros Hf Hn. unfold mutate_gen. rewrite (io_ok _ _ Hf). cbn [negb].
+  match goal with |- context [io_env ?a ec] => set (ec1 := io_env a ec) end.
+  assert (Hn1 : no_pend (e_disk ec1)) by (apply (no_pend_same (e_disk ec)); [reflexivity|exact Hn]).
+  destruct (tx_create t) as [si|]; [|intros E; inversion E; subst; exact Hn1].
+  destruct (seg_create si ec1) as [sw ec2] eqn:Es. pose proof (np_seg_create si ec1 sw ec2 eq_refl Hn1 Es) as Hn2.
+  destruct sw; intros E; inversion E; subst; exact Hn2.
+Qed.
+
+Lemma np_reset_first c w nbase ec r w' ec' dl : e_fault ec = None -> no_pend (e_disk ec) ->
+  reset_first c w nbase ec = (r, w', ec', dl) -> no_pend (e_disk ec').
+Proof.
+  intros Hf Hn. unfold reset_first. destruct (0 <? _); [intros E; inversion E; subst; exact Hn|].
+  destruct (tail_info _) as [t|].
+  - destruct (si_base t =? nbase); [apply np_mutate_gen_defer; assumption|].
+    destruct (create_next _ _ _ _) as [[nid segs2] si]. apply np_mutate_gen_defer; assumption.
+  - destruct (create_next _ _ _ _) as [[nid segs2] si]. apply np_mutate_gen_defer; assumption.
 Qed.
 
 (* ---- result classes ---- *)
@@ -257,11 +441,11 @@ Lemma in_alts_app_op nom o alts a' : In nom alts -> spec_accepts nom o = Some a'
 Proof. intros H E. apply in_or_app. right. eapply in_app_op; eauto. Qed.
 
 (* the clean state a Same outcome leaves *)
-Lemma clean_after c nb w0 e' ec' : LInv c nb w0 (e_disk ec') -> R None e' ec' ->
-  LInv c nb w0 (sh (e_disk e')) /\ no_pend (e_disk e') /\ sp_of (sh (e_disk e')) = sp_of (e_disk ec').
+Lemma clean_after c nb w0 X e' ec' : LInv c nb w0 (e_disk ec') -> R X e' ec' ->
+  LInv c nb w0 (sh (e_disk e')) /\ stale_ok X (e_disk e') /\ sp_of (sh (e_disk e')) = sp_of (e_disk ec').
 Proof.
   intros HL (Hrel & _). pose proof HL as (_ & _ & _ & HN & _).
-  rewrite (drel_sh_eq _ _ _ Hrel). split; [apply LInv_sh; exact HL|]. split; [eapply drel_nopend; eauto|].
+  rewrite (drel_sh_eq _ _ _ Hrel). split; [apply LInv_sh; exact HL|]. split; [eapply drel_stale_ok; eauto|].
   apply (sp_of_sh_clean c nb w0 _ HL).
 Qed.
 
@@ -296,15 +480,15 @@ Proof.
   rewrite N.eqb_refl. replace (l_index l0 =? l_index l0 + 1) with false by lia. reflexivity.
 Qed.
 
-Lemma drel_trans_None d1 d2 d3 : drel None d1 d2 -> drel None d2 d3 -> drel None d1 d3.
+Lemma drel_trans_nil d1 d2 d3 : drel [] d1 d2 -> drel [] d2 d3 -> drel [] d1 d3.
 Proof.
   intros H12 H23. pose proof (drel_strict_in _ _ H12) as F12. pose proof (drel_strict_in _ _ H23) as F23.
   destruct H12 as (_ & A2 & A3 & A4 & A5 & A6). destruct H23 as (_ & B2 & B3 & B4 & B5 & B6).
   assert (HF : Forall2 (fun a b => fst a = fst b /\ frel (snd a) (snd b) /\ df_pend (snd a) = df_pend (snd b)) (dk_files d1) (dk_files d3)).
-  { clear - F12 F23. revert F23. generalize (dk_files d3). induction F12 as [|a b l lc (E & (P1 & P2 & P3 & P4 & _) & P) _ IH]; intros l3 F23.
+  { clear - F12 F23. revert F23. generalize (dk_files d3). induction F12 as [|a b l lc (E & (P1 & P2 & P3 & P4) & P) _ IH]; intros l3 F23.
     - inversion F23; constructor.
-    - inversion F23 as [|b' c' lc' l3' (E' & (Q1 & Q2 & Q3 & Q4 & _) & Q) F23']; subst. constructor; [|apply IH; exact F23'].
-      split; [congruence|]. split; [|congruence]. unfold frel. repeat split; try congruence. left. congruence. }
+    - inversion F23 as [|b' c' lc' l3' (E' & (Q1 & Q2 & Q3 & Q4) & Q) F23']; subst. constructor; [|apply IH; exact F23'].
+      split; [congruence|]. split; [|congruence]. unfold frel. split; [congruence|]. split; [congruence|]. split; [congruence|]. left. congruence. }
   split.
   { clear - HF. induction HF as [|a b l lc (E & F & _) _ IH]; constructor; auto. }
   split; [congruence|]. split; [congruence|]. split; [congruence|]. split; [exact B5|].
@@ -340,6 +524,13 @@ Proof.
 Qed.
 
 (* ---- StoreLogs from a live state ---- *)
+Lemma live_tail_name c nb w d t tw : LInv c nb w d -> tail_info (st_segs w) = Some t -> st_tail w = Some tw -> ws_name tw = name_of t.
+Proof.
+  intros HL Ht Htw. destruct (LInv_view _ _ _ _ HL) as (S & t0 & f0 & tw0 & V).
+  rewrite (lv_segs _ _ _ _ _ _ _ _ V), tail_info_app in Ht. inversion Ht; subst t0.
+  rewrite (lv_tail _ _ _ _ _ _ _ _ V) in Htw. inversion Htw; subst tw0. apply (lv_tw _ _ _ _ _ _ _ _ V).
+Qed.
+
 Lemma live_store c nb w e nom alts defer ls :
   cfg_ok c -> logs_ok ls -> frames_size ls < two30 -> nb + 1 < two64 ->
   Live c nb w (e_disk e) defer -> st_rotate w = None -> sp_of (sh (e_disk e)) = nom -> In nom alts ->
@@ -351,71 +542,82 @@ Lemma live_store c nb w e nom alts defer ls :
 Proof.
   intros Hc Hok HF Hnb HLive Hrot Hsp Hin.
   pose proof HLive as (HL & _). pose proof (LInv_closed _ _ _ _ HL) as Hcl.
-  destruct (live_shadow c nb w e defer HLive) as (o & HR & Hst & Hso & Hon & Hg & _).
-  set (ec := shenv e) in *. set (d := e_disk e) in *.
+  destruct (live_shadow c nb w e defer HLive) as (HR & Hg & Hex & HX).
+  set (X := stale_names (e_disk e)) in *. set (ec := shenv e) in *. set (d := e_disk e) in *.
   destruct (store_logs_ok c nb w ec ls nom Hc HL eq_refl Hrot Hnb Hsp Hok HF) as (r0 & w0 & ec' & Hsl & Hres & HL' & Hsp' & Hext).
   destruct (store_logs c w ls e) as [[r w'] e'] eqn:Est. exists r, w', e'. split; [reflexivity|].
+  destruct (store_logs_sub _ _ _ _ _ _ _ Est) as (_ & Hms).
+  assert (Hgarb : forall n, In n X -> unlisted d n -> unlisted (e_disk e') n).
+  { intros n Hx Hu. apply (unlisted_keep c nb w d (e_disk e') n HL (Hex n Hx) Hu Hms). }
   set (o1 := OStore ls) in *. set (defer' := o1 :: defer). set (alts' := alts ++ app_op o1 alts).
   assert (Hia : incl alts alts') by (intros x Hx; apply in_or_app; left; exact Hx).
   assert (Hid : incl defer defer') by (intros x Hx; right; exact Hx).
   assert (Hina : In nom alts') by (apply Hia; exact Hin).
   pose proof (LInv_closed _ _ _ _ HL') as Hcl0.
-  destruct (store_logs_lock o c w ls e ec r w' e' r0 w0 ec' HR Hst Est Hsl) as [(-> & -> & HR' & Hcase)|(Hf' & -> & Hfail)].
+  (* the names in X other than the tail's are garbage *)
+  assert (HXg : forall t n, tail_info (st_segs w) = Some t -> In n X -> n <> name_of t -> unlisted (e_disk e') n).
+  { intros t n Ht Hx Hne. destruct (HX n Hx) as [(t' & Ht' & ->)|Hu]; [rewrite Ht in Ht'; inversion Ht'; subst; congruence|].
+    apply Hgarb; assumption. }
+  assert (Hdone : forall w1, Live c (nb + 1) w1 (e_disk e') defer -> sp_of (sh (e_disk e')) = snd (step_spec nom o1) ->
+    (r0 = ROk /\ exists nom', spec_accepts nom o1 = Some nom' /\ Live c (nb + 1) w1 (e_disk e') defer /\ sp_of (sh (e_disk e')) = nom') \/
+    (r0 <> ROk /\ Mode c (nb + 1) w1 (e_disk e') nom defer' /\ RD c (nb + 1) (e_disk e') alts' defer')).
+  { intros w1 HLv Hsps. destruct (res_cases nom o1 r0 eq_refl Hres) as [(-> & Hacc)|(Hne & Hacc & Hsnd)].
+    - left. split; [reflexivity|]. exists (snd (step_spec nom o1)). auto.
+    - right. split; [exact Hne|]. rewrite Hsnd in Hsps.
+      apply (live_out c (nb + 1) w1 (e_disk e') nom alts' defer'); [eapply Live_mono; [| |exact HLv]; [lia|exact Hid]|exact Hsps|exact Hina]. }
+  destruct (store_logs_lock X c w ls e ec r w' e' r0 w0 ec' HR Hg Hex Est Hsl) as [(-> & -> & Hcase)|(Hf' & -> & Hfail)].
   - (* both runs agree *)
     split; [exact Hcl0|].
-    assert (Hunch : w0 = w /\ e' = e /\ ec' = ec ->
-      (r0 = ROk /\ exists nom', spec_accepts nom o1 = Some nom' /\ Live c (nb + 1) w0 (e_disk e') defer /\ sp_of (sh (e_disk e')) = nom') \/
-      (r0 <> ROk /\ Mode c (nb + 1) w0 (e_disk e') nom defer' /\ RD c (nb + 1) (e_disk e') alts' defer')).
-    { intros (-> & -> & Eec). rewrite Eec in Hsp'. change (e_disk ec) with (sh d) in Hsp'.
-      destruct (res_cases nom o1 r0 eq_refl Hres) as [(-> & Hacc)|(Hne & Hacc & Hsnd)].
-      - left. split; [reflexivity|]. exists (snd (step_spec nom o1)). split; [exact Hacc|]. split; [|exact Hsp'].
-        eapply Live_mono; [| |exact HLive]; [lia|apply incl_refl].
-      - right. split; [exact Hne|].
-        apply (live_out c (nb + 1) w d nom alts' defer'); [eapply Live_mono; [| |exact HLive]; [lia|exact Hid]|exact Hsp|exact Hina]. }
-    destruct Hcase as [Hu|[HRn|Hfl]]; [apply Hunch; exact Hu| |destruct HL' as (_ & K & _); congruence].
-    destruct (clean_after c (nb + 1) w0 e' ec' HL' HRn) as (HLs & HNs & Hsps). rewrite Hsp' in Hsps.
-    destruct (res_cases nom o1 r0 eq_refl Hres) as [(-> & Hacc)|(Hne & Hacc & Hsnd)].
-    + left. split; [reflexivity|]. exists (snd (step_spec nom o1)). split; [exact Hacc|]. split; [apply live_clean; assumption|exact Hsps].
-    + right. split; [exact Hne|]. rewrite Hsnd in Hsps.
-      apply (live_out c (nb + 1) w0 (e_disk e') nom alts' defer'); [apply live_clean; assumption|exact Hsps|exact Hina].
+    destruct Hcase as [(-> & -> & Eec)|[Hfl|[(tw & Htw & -> & HRn)|(ti & Hti & HRd)]]].
+    + apply Hdone; [eapply Live_mono; [| |exact HLive]; [lia|apply incl_refl]|]. rewrite Eec in Hsp'. exact Hsp'.
+    + destruct HL' as (_ & K & _); congruence.
+    + destruct (LInv_view _ _ _ _ HL) as (S & t & f0 & tw0 & V).
+      assert (Ht : tail_info (st_segs w) = Some t) by (rewrite (lv_segs _ _ _ _ _ _ _ _ V); apply tail_info_app).
+      pose proof (live_tail_name c nb w _ t tw HL Ht Htw) as Tn.
+      destruct (Rd_live c (nb + 1) _ w0 e' ec ec' (rem (ws_name tw) X) [] defer Hext HL' (Rd_of_R _ _ _ _ HRn)) as (HLv & Hsps).
+      { intros n f p Hx _ _ _. right. apply rem_in in Hx. destruct Hx as (Hx & Hne). apply (HXg t n Ht Hx). rewrite <- Tn. exact Hne. }
+      apply Hdone; [exact HLv|rewrite Hsps; exact Hsp'].
+    + destruct (Rd_live c (nb + 1) _ w0 e' ec ec' X [name_of ti] defer Hext HL' HRd) as (HLv & Hsps).
+      { intros n f p Hx Hni _ _. right. apply (HXg ti n Hti Hx). intros ->. apply Hni. left. reflexivity. }
+      apply Hdone; [exact HLv|rewrite Hsps; exact Hsp'].
   - (* the real run failed at an I/O action *)
     assert (Hfin : forall dm, pfx ec ec' dm -> DP c (nb + 1) (fun x => x = nom \/ x = snd (step_spec nom o1)) dm) by (intros dm Hp; apply (ext_pfx _ _ _ _ Hext Hp)).
     assert (Hcand : forall x, x = nom \/ x = snd (step_spec nom o1) -> In x (candidates alts' defer')).
     { intros x [-> | ->]; [apply cand_alts; exact Hina|]. apply cand_alts.
       destruct (res_cases nom o1 r0 eq_refl Hres) as [(_ & Hacc)|(_ & _ & Hsnd)]; [eapply in_alts_app_op; eauto|rewrite Hsnd; exact Hina]. }
-    destruct Hfail as [(-> & Hd)|[(-> & ps & Hrel & Hpfx & Hmeta & Hgone)|[(-> & -> & Hne & tw & Htw & Hfacts & Hrel & Hpfx)|
-                        (l0 & ls' & w1 & ec1 & dels & tw1 & dm & -> & Hreset & -> & Htw1 & (ti & Hti & -> & _ & Hfl & Hcond) & Hfacts & -> & Hdm & Hpfx & Hrel)]]].
+    destruct Hfail as [(-> & Hd)|[(-> & ps & ti & Hpc & Hmeta & Hti & Hgone)|[(-> & -> & Hne & tw & Htw & Hfacts & Hrel & Hpfx)|
+                        (l0 & ls' & w1 & ec1 & tw1 & dm & ti & -> & Hreset & -> & Htw1 & Hti & _ & Hfl & Hcond & Hfacts & -> & Hdm & Hpfx & Hpfx1 & Hfresh & Hrel)]]].
     + (* nothing happened *)
       split; [exact Hcl|]. right. split; [discriminate|]. rewrite Hd.
       apply (live_out c (nb + 1) w d nom alts' defer'); [eapply Live_mono; [| |exact HLive]; [lia|exact Hid]|exact Hsp|exact Hina].
     + (* the reset was committed but the new tail could not be created *)
       split; [exact Hcl|]. right. split; [discriminate|].
-      set (dm := apply_act (e_disk ec) (ACommit ps)) in *.
-      assert (HNdm : no_pend dm) by (intros n f Hl; apply (no_pend_sh d n f Hl)).
-      split.
-      * right. split; [exact Hcl|]. right. right. split; [reflexivity|]. split; [exact Hrot|].
-        exists w, (sh d), o. split; [eapply LInv_mono; [|exact HL]; lia|]. split; [exact Hsp|]. split; [reflexivity|]. split; [reflexivity|].
-        split; [rewrite (drel_sh_eq _ _ _ Hrel); change (dk_files (sh dm)) with (dk_files (sh (sh d))); rewrite sh_idem; reflexivity|].
-        split; [destruct Hrel as (_ & _ & K & _); rewrite K; reflexivity|]. split; [apply (drel_NoDup _ _ _ Hrel)|].
-        split; [eapply drel_stale_ok; eauto|]. intros n Ho. destruct (Hst n Ho) as (_ & ti & tw & A & _ & _ & B & _). exists ti. auto.
-      * destruct (Hfin dm Hpfx) as (HDm & HAm & _).
-        eapply (RD_stale_unlisted c (nb + 1) (e_disk e') dm o); [exact HDm|exact HNdm|exact Hrel| |apply Hcand; exact HAm].
-        intros n ps' s Ho. apply (unlisted_of_final c (nb + 1) w0 (e_disk ec') dm n ps HL' Hmeta eq_refl (Hgone n Ho)).
+      assert (Hmd' : dk_meta (e_disk e') = Some ps).
+      { destruct Hpc as (dm & (_ & M & _) & _ & Hm & _). rewrite M. exact Hm. }
+      apply (fail_after_commit c nb (nb + 1) (set_failed w) w (sh d) (e_disk e') X nom alts' defer' ps ec ec' ltac:(lia) HL eq_refl Hsp eq_refl eq_refl eq_refl Hrot Hcl Hpc).
+      * intros dm Hp. destruct (Hfin dm Hp) as (HDm & HAm & _). split; [exact HDm|apply Hcand; exact HAm].
+      * intros n Hx. destruct (HX n Hx) as [K|Hu]; [left; exact K|right].
+        intros s Hs. apply (Hu (persistent w) s (live_meta c nb w d HL) Hs).
+      * intros n s Hx Hs. destruct (mem_name n [name_of ti]) eqn:En.
+        -- apply mem_name_spec in En. destruct En as [<-|[]].
+           pose proof HL' as (_ & _ & _ & _ & Hm0 & _). rewrite Hmeta in Hm0. inversion Hm0; subst ps.
+           intros Hn. apply (LInv_listed_files c (nb + 1) w0 _ s HL' Hs). rewrite Hn. exact Hgone.
+        -- apply (HXg ti n Hti Hx (fun K => not_mem_name _ _ En (or_introl (eq_sym K))) ps s Hmd' Hs).
     + (* the batch was written but not synced *)
       split; [exact Hcl|]. right. split; [discriminate|].
       destruct (LInv_view _ _ _ _ HL) as (S & t & f0 & tw0 & V).
       rewrite (lv_tail _ _ _ _ _ _ _ _ V) in Htw. inversion Htw; subst tw0.
+      assert (Ht : tail_info (st_segs w) = Some t) by (rewrite (lv_segs _ _ _ _ _ _ _ _ V); apply tail_info_app).
       assert (Hse : df_seal f0 = 0).
       { pose proof (lv_rot _ _ _ _ _ _ _ _ V) as K. rewrite Hrot in K. destruct (0 <? df_seal f0) eqn:Z; [discriminate|lia]. }
       destruct (append_act_pend V ls Hc Hse Hok HF Hne) as (len & b & Ea & Eb & Hlt).
       pose proof (lv_tw _ _ _ _ _ _ _ _ V) as (Tn & Tb & _ & _ & Tnn & _).
-      assert (Hcl' : clr o (ws_name tw) = None).
-      { destruct o as [n|]; [|reflexivity]. destruct (Hst n eq_refl) as (_ & ti & tw' & _ & Ht' & En & _).
-        rewrite (lv_tail _ _ _ _ _ _ _ _ V) in Ht'. inversion Ht'; subst tw'. rewrite En. unfold clr. rewrite fname_eqb_refl. reflexivity. }
-      rewrite Hcl' in Hrel. change (e_disk ec) with (sh d) in Hrel, Hpfx.
+      change (e_disk ec) with (sh d) in Hrel, Hpfx.
       destruct (Hfin _ Hpfx) as (HDm & _).
       destruct (res_cases nom o1 ROk eq_refl Hres) as [(_ & Hacc)|(Hne0 & _)]; [|congruence].
-      destruct (stale_after_write c nb (nb + 1) w (sh d) (e_disk e') S t f0 tw defer' _ len b V Hse ltac:(lia) Ea Hlt HDm Hrel) as (HLv & Hspv).
+      destruct (stale_after_write c nb (nb + 1) w (sh d) (e_disk e') (rem (ws_name tw) X) S t f0 tw defer' _ len b V Hse ltac:(lia) Ea Hlt HDm Hrel) as (HLv & Hspv).
+      { rewrite <- Tn. apply rem_not. }
+      { intros n Hx. apply rem_in in Hx. destruct Hx as (Hx & Hn). apply (HXg t n Ht Hx). rewrite <- Tn. exact Hn. }
       { rewrite Eb. intros _. split; [split; [exact Hok|exact HF]|]. split; [left; reflexivity|].
         destruct Hfacts as (l0 & lr & El & Hidx & _). exists l0, lr. split; [exact El|]. split; [rewrite Hidx, Tb, Tnn; reflexivity|].
         unfold o1, spec_accepts in Hacc. cbn [step_spec] in Hacc. unfold spec_store in Hacc. rewrite El in Hacc |- *. cbv iota in Hacc.
@@ -432,49 +634,95 @@ Proof.
       rewrite (twice_rejected nom l0 Hl0) in Hsph. cbn [snd] in Hsph.
       pose proof (sh_reset_first c w (l_index l0) ec _ _ _ _ eq_refl Hreset) as Hsh1.
       rewrite (delete_files_disk _ _ (proj2 Hsh1)) in HLh, Hsph.
-      set (d1 := del_disk [name_of ti] (e_disk ec1)) in *.
+      set (m := name_of ti) in *. set (d1 := del_disk [m] (e_disk ec1)) in *.
       split; [apply (LInv_closed _ _ _ _ HLh)|]. right. split; [discriminate|].
+      (* the state right after the reset, the old tail file not yet deleted *)
+      destruct (Hfin _ Hpfx1) as (HD1 & _).
+      assert (HN1 : no_pend (e_disk ec1)) by (apply (np_reset_first c w (l_index l0) ec _ _ _ _ eq_refl (no_pend_sh d) Hreset)).
+      pose proof (LInv_undelete c (nb + 1) w1 (e_disk ec1) [m] HLh HD1 HN1) as HL1.
+      pose proof (DIs_NoDup _ _ _ HD1) as ND1.
+      assert (Hlm : lookup m (dk_files d1) = None).
+      { unfold d1. rewrite (del_disk_lookup [m] _ m ND1). cbn [mem_name existsb]. rewrite fname_eqb_refl. reflexivity. }
+      assert (Hunlm : forall s, In s (st_segs w1) -> name_of s <> m).
+      { intros s Hs Hn. apply (LInv_listed_files c (nb + 1) w1 d1 s HLh Hs). rewrite Hn. exact Hlm. }
+      assert (Hsp1 : sp_of (e_disk ec1) = nom) by (rewrite <- (sp_of_del c (nb + 1) w1 (e_disk ec1) [m] HLh ND1); exact Hsph).
+      assert (Hmeta1 : dk_meta (e_disk ec1) = Some (persistent w1)) by apply HL1.
+      (* the names in X are not listed any more *)
+      assert (HXu : forall d2, dk_meta d2 = Some (persistent w1) -> dk_meta (e_disk e') = dk_meta d2 ->
+                     forall n, In n X -> unlisted (e_disk e') n).
+      { intros d2 Hm2 Hme n Hx. destruct (mem_name n [m]) eqn:En.
+        - apply mem_name_spec in En. destruct En as [<-|[]]. intros ps s Hm Hs. rewrite Hme, Hm2 in Hm. inversion Hm; subst ps. apply (Hunlm s Hs).
+        - apply (HXg ti n Hti Hx). intros K. apply (not_mem_name _ _ En). left. symmetry. exact K. }
+      assert (Hclean : forall X2 d2, drel X2 (e_disk e') d2 -> incl X2 X -> LInv c (nb + 1) w1 d2 -> sp_of d2 = nom ->
+                Mode c (nb + 1) w1 (e_disk e') nom defer' /\ RD c (nb + 1) (e_disk e') alts' defer').
+      { intros X2 d2 Hr2 Hi2 HL2 Hsp2.
+        assert (HLs : LInv c (nb + 1) w1 (sh (e_disk e'))) by (rewrite (drel_sh_eq _ _ _ Hr2); apply LInv_sh; exact HL2).
+        assert (Hsps : sp_of (sh (e_disk e')) = nom) by (rewrite (drel_sh_eq _ _ _ Hr2), (sp_of_sh_clean c _ w1 _ HL2); exact Hsp2).
+        apply (live_out c (nb + 1) w1 (e_disk e') nom alts' defer'); [|exact Hsps|exact Hina].
+        split; [exact HLs|]. intros n f p Hl Hp. right.
+        apply (HXu d2 (proj1 (proj2 (proj2 (proj2 (proj2 HL2))))) (proj1 (proj2 Hr2)) n). apply Hi2.
+        apply (drel_stale_ok _ _ _ Hr2 (proj1 (proj2 (proj2 (proj2 HL2)))) n f Hl). congruence. }
       destruct Hdm as [-> | ->].
       * (* the write failed: a clean state *)
-        fold d1 in Hrel. pose proof HLh as (_ & _ & _ & HN1 & _).
-        assert (HLs : LInv c (nb + 1) w1 (sh (e_disk e'))) by (rewrite (drel_sh_eq _ _ _ Hrel); apply LInv_sh; exact HLh).
-        assert (HNs : no_pend (e_disk e')) by (eapply drel_nopend; eauto).
-        assert (Hsps : sp_of (sh (e_disk e')) = nom) by (rewrite (drel_sh_eq _ _ _ Hrel), (sp_of_sh_clean c _ w1 _ HLh); exact Hsph).
-        apply (live_out c (nb + 1) w1 (e_disk e') nom alts' defer'); [apply live_clean; assumption|exact Hsps|exact Hina].
+        destruct Hrel as [Hrel|Hrel].
+        -- apply (Hclean _ _ Hrel (rem_incl _ _) HLh Hsph).
+        -- apply (Hclean _ _ Hrel (incl_refl _) HL1 Hsp1).
       * (* the fsync failed: the batch sits behind the new, empty tail *)
-        destruct (LInv_view _ _ _ _ HLh) as (S & t & f0 & tw0 & V).
-        rewrite (lv_tail _ _ _ _ _ _ _ _ V) in Htw1. inversion Htw1; subst tw0.
-        pose proof (lv_tw _ _ _ _ _ _ _ _ V) as (Tn & Tb & _ & _ & Tnn & _ & Ti & _).
-        destruct Hfacts as (l1 & lr & El & Hidx & His). injection El as <- <-.
-        assert (Hse : df_seal f0 = 0) by congruence.
         assert (Hne : l0 :: ls' <> []) by discriminate.
-        destruct (append_act_pend V (l0 :: ls') Hc Hse Hok HF Hne) as (len & b & Ea & Eb & Hlt).
-        set (a := append_act tw1 (l0 :: ls')) in *. set (m := name_of ti) in *.
-        destruct (Hfin _ Hpfx) as (HDa & _).
-        assert (ND1 : NoDup (map fst (dk_files (e_disk ec1)))).
-        { pose proof (DIs_NoDup _ _ _ HDa) as K. rewrite Ea in K.
-          destruct (write_sync_keys (e_disk ec1) (AWrite (name_of t) (df_end f0) len b) I) as (K1 & _). rewrite K1 in K. exact K. }
-        assert (Hd1 : d1 = apply_act (e_disk ec1) (ADelete m)) by reflexivity.
-        assert (Hlm : lookup m (dk_files d1) = None) by (rewrite Hd1; cbn [apply_act dk_files]; apply lookup_remove_eq; exact ND1).
-        assert (Hnm : name_of t <> m).
-        { intros K. pose proof (lv_file _ _ _ _ _ _ _ _ V) as Hf. rewrite K, Hlm in Hf. discriminate. }
-        assert (Hcomm : apply_act d1 a = del_disk [m] (apply_act (e_disk ec1) a)).
-        { rewrite Hd1, Ea. unfold del_disk. cbn [fold_left]. apply write_delete_comm; assumption. }
-        rewrite <- Hcomm in Hrel.
-        assert (Hmeta1 : dk_meta (apply_act (e_disk ec1) a) = Some (persistent w1)).
-        { rewrite Ea. destruct (write_sync_keys (e_disk ec1) (AWrite (name_of t) (df_end f0) len b) I) as (_ & K2). rewrite K2.
-          pose proof HLh as (_ & _ & _ & _ & Hm1 & _). rewrite Hd1 in Hm1. exact Hm1. }
-        assert (Hunl : listed (ps_segs (persistent w1)) m = false).
-        { destruct (listed (ps_segs (persistent w1)) m) eqn:El'; [|reflexivity]. exfalso.
-          apply listed_spec in El'. destruct El' as (s & Hs & Hn). apply (LInv_listed_files c _ w1 d1 s HLh Hs). rewrite Hn. exact Hlm. }
-        assert (HDw : DIs c (nb + 1) (apply_act d1 a)).
-        { rewrite Hcomm. unfold del_disk. cbn [fold_left]. apply (DIs_delete c (nb + 1) _ m _ HDa Hmeta1 Hunl). }
         destruct (res_cases nom o1 ROk eq_refl Hres) as [(_ & Hacc)|(Hne0 & _)]; [|congruence].
-        destruct (stale_after_write c (nb + 1) (nb + 1) w1 d1 (e_disk e') S t f0 tw1 defer' a len b V Hse ltac:(lia) Ea Hlt HDw Hrel) as (HLv & Hspv).
-        { rewrite Eb. intros _. split; [split; [exact Hok|exact HF]|]. split; [left; reflexivity|].
+        assert (Hlsfacts : forall t tw0 f0, tw_ok t f0 tw0 -> tw0 = tw1 ->
+          sop_ok (OStore (l0 :: ls')) /\ In (OStore (l0 :: ls')) defer' /\
+          exists l1 r, l0 :: ls' = l1 :: r /\ l_index l1 = si_base t + llen (df_ents f0) /\ consecutive (l_index l1) (l0 :: ls') = true).
+        { intros t tw0 f0 (Tn & Tb & _ & _ & Tnn & _) ->. split; [split; [exact Hok|exact HF]|]. split; [left; reflexivity|].
+          destruct Hfacts as (l1 & lr & El & Hidx & His). injection El as <- <-.
           exists l0, ls'. split; [reflexivity|]. split; [rewrite Hidx, Tb, Tnn; reflexivity|].
           unfold o1, spec_accepts in Hacc. cbn [step_spec] in Hacc. unfold spec_store in Hacc. cbv iota in Hacc.
           destruct (consecutive (l_index l0) (l0 :: ls')); [reflexivity|]. cbn in Hacc. discriminate. }
-        rewrite Hsph in Hspv.
-        apply (live_out c (nb + 1) w1 (e_disk e') nom alts' defer'); assumption.
+        assert (Hse1 : forall f0, tw_ok (match tail_info (st_segs w1) with Some t => t | None => ti end) f0 tw1 -> df_seal f0 = 0).
+        { intros f0 (_ & _ & _ & _ & _ & _ & Ti & _). destruct Hfacts as (l1 & lr & El & Hidx & His). congruence. }
+        set (a := append_act tw1 (l0 :: ls')) in *.
+        destruct (Hfin _ Hpfx) as (HDa & _).
+        destruct Hrel as [Hrel|Hrel].
+        -- (* the old tail file was deleted *)
+           destruct (LInv_view _ _ _ _ HLh) as (S & t & f0 & tw0 & V).
+           rewrite (lv_tail _ _ _ _ _ _ _ _ V) in Htw1. inversion Htw1; subst tw0.
+           assert (Hse : df_seal f0 = 0).
+           { apply Hse1. rewrite (lv_segs _ _ _ _ _ _ _ _ V), tail_info_app. apply (lv_tw _ _ _ _ _ _ _ _ V). }
+           destruct (append_act_pend V (l0 :: ls') Hc Hse Hok HF Hne) as (len & b & Ea & Eb & Hlt). fold a in Ea.
+           assert (Hd1 : d1 = apply_act (e_disk ec1) (ADelete m)) by reflexivity.
+           assert (Hnm : name_of t <> m).
+           { intros K. pose proof (lv_file _ _ _ _ _ _ _ _ V) as Hf. rewrite K, Hlm in Hf. discriminate. }
+           assert (Hcomm : apply_act d1 a = del_disk [m] (apply_act (e_disk ec1) a)).
+           { rewrite Hd1, Ea. unfold del_disk. cbn [fold_left]. apply write_delete_comm; assumption. }
+           rewrite <- Hcomm in Hrel.
+           assert (Hmetaa : dk_meta (apply_act (e_disk ec1) a) = Some (persistent w1)).
+           { rewrite Ea. destruct (write_sync_keys (e_disk ec1) (AWrite (name_of t) (df_end f0) len b) I) as (_ & K2). rewrite K2. exact Hmeta1. }
+           assert (Hunl : listed (ps_segs (persistent w1)) m = false).
+           { destruct (listed (ps_segs (persistent w1)) m) eqn:El'; [|reflexivity]. exfalso.
+             apply listed_spec in El'. destruct El' as (s & Hs & Hn). apply (Hunlm s Hs Hn). }
+           assert (HDw : DIs c (nb + 1) (apply_act d1 a)).
+           { rewrite Hcomm. unfold del_disk. cbn [fold_left]. apply (DIs_delete c (nb + 1) _ m _ HDa Hmetaa Hunl). }
+           assert (Hmdw : dk_meta (apply_act d1 a) = Some (persistent w1)).
+           { rewrite Ea. destruct (write_sync_keys d1 (AWrite (name_of t) (df_end f0) len b) I) as (_ & K2). rewrite K2. apply HLh. }
+           destruct (stale_after_write c (nb + 1) (nb + 1) w1 d1 (e_disk e') (rem m X) S t f0 tw1 defer' a len b V Hse ltac:(lia) Ea Hlt HDw Hrel) as (HLv & Hspv).
+           { intros K. apply rem_in in K. destruct K as (K & _). apply (Hex _ K).
+             rewrite <- (proj1 (lv_tw _ _ _ _ _ _ _ _ V)). exact Hfresh. }
+           { intros n Hx. apply (HXu _ Hmdw (proj1 (proj2 Hrel)) n (rem_incl _ _ _ Hx)). }
+           { rewrite Eb. intros _. apply (Hlsfacts t tw1 f0 (lv_tw _ _ _ _ _ _ _ _ V) eq_refl). }
+           rewrite Hsph in Hspv.
+           apply (live_out c (nb + 1) w1 (e_disk e') nom alts' defer'); assumption.
+        -- (* its deletion failed *)
+           destruct (LInv_view _ _ _ _ HL1) as (S & t & f0 & tw0 & V).
+           rewrite (lv_tail _ _ _ _ _ _ _ _ V) in Htw1. inversion Htw1; subst tw0.
+           assert (Hse : df_seal f0 = 0).
+           { apply Hse1. rewrite (lv_segs _ _ _ _ _ _ _ _ V), tail_info_app. apply (lv_tw _ _ _ _ _ _ _ _ V). }
+           destruct (append_act_pend V (l0 :: ls') Hc Hse Hok HF Hne) as (len & b & Ea & Eb & Hlt). fold a in Ea.
+           assert (Hmetaa : dk_meta (apply_act (e_disk ec1) a) = Some (persistent w1)).
+           { rewrite Ea. destruct (write_sync_keys (e_disk ec1) (AWrite (name_of t) (df_end f0) len b) I) as (_ & K2). rewrite K2. exact Hmeta1. }
+           destruct (stale_after_write c (nb + 1) (nb + 1) w1 (e_disk ec1) (e_disk e') X S t f0 tw1 defer' a len b V Hse ltac:(lia) Ea Hlt HDa Hrel) as (HLv & Hspv).
+           { intros K. apply (Hex _ K). rewrite <- (proj1 (lv_tw _ _ _ _ _ _ _ _ V)). exact Hfresh. }
+           { intros n Hx. apply (HXu _ Hmetaa (proj1 (proj2 Hrel)) n Hx). }
+           { rewrite Eb. intros _. apply (Hlsfacts t tw1 f0 (lv_tw _ _ _ _ _ _ _ _ V) eq_refl). }
+           rewrite Hsp1 in Hspv.
+           apply (live_out c (nb + 1) w1 (e_disk e') nom alts' defer'); assumption.
 Qed.
